@@ -46,7 +46,7 @@ Section C08.
         abandoned, whatever the oracle would have answered ... *)
   Theorem C08_deadline_inner_abandons : forall c clk s p dt a k,
     inner_checks It c clk s p (match a with Ans _ _ _ _ n => n | Fail _ n => n end) = (true, k) ->
-    resolve It c clk s p dt a = (cur It s, 2 * (1 / dt), false, k).
+    resolve It c clk s p dt a = (cur It s, 1 / dt, false, k).
   Proof. exact (deadline_inner It). Qed.
 
   (*    ... an abandoned (or failed) trial changes neither iterate, path, model times, accepted-step
@@ -62,13 +62,29 @@ Section C08.
   Qed.
 
   (*    ... and with a clock that does not run backwards the very next termination test stops the solve
-        with TimeLimit (or IterationLimit if that budget is exhausted too).  This needs the loop to get
-        there: body raises the lambda error first if the doubled lambda reached lamb_max (known finding). *)
+        with TimeLimit (or IterationLimit if that budget is exhausted too) ... *)
   Theorem C08_stop_after_abandoned_trial : forall c clk s q,
     (forall a b, (a <= b)%nat -> clk a <= clk b) -> (q <= cpos It s)%nat ->
     deadline_passed It c s (clk q) = true ->
     exists stt s1, check c clk s = (Some stt, s1) /\ (stt = TimeLimit \/ stt = IterationLimit).
   Proof. exact (check_after_deadline It it_total it_linf it_obj it_feas). Qed.
+
+  (*    ... and the loop does get there: the abandoned trial returns the current lambda (below lamb_max, as after every
+        earlier trial: C15_lambda_chain), so the body runs to its end with point, path, accepted-step count, penalty and
+        lambda untouched, and the solve returns that very point with TimeLimit / IterationLimit.  (Before the repair
+        of F10 the abandoned trial doubled lambda and could end in the step-size error instead.) *)
+  Theorem C08_abandoned_trial_then_stop : forall c (orc : oracle It) clk s k,
+    (forall a b, (a <= b)%nat -> clk a <= clk b) ->
+    0 < lamb It s -> qle (c_lamb_max c) (lamb It s) = false ->
+    inner_checks It c clk s (S (cpos It s))
+      (match orc (itn It s) (cur It s) (rho It s) (1 / lamb It s) (disp_of It c clk s) with
+       | Ans _ _ _ _ n => n | Fail _ n => n end) = (true, k) ->
+    exists s', body c orc clk s = inl s'
+      /\ cur It s' = cur It s /\ nacc It s' = nacc It s /\ path It s' = path It s /\ times It s' = times It s
+      /\ rho It s' = rho It s /\ lamb It s' == lamb It s /\ itn It s' = S (itn It s)
+      /\ exists stt s1, check c clk s' = (Some stt, s1) /\ (stt = TimeLimit \/ stt = IterationLimit)
+                         /\ cur It s1 = cur It s.
+  Proof. exact (abandoned_trial_then_stop It it_total it_linf it_obj it_feas it_pdata step_norm). Qed.
 End C08.
 
 (* non-vacuity: the unlimited example run passes through iteration 4 in exactly the state the run
@@ -81,12 +97,12 @@ Example C08_nonvacuous :
              [0; 1; 3 # 2; 7 # 4; 15 # 8; 31 # 16], [8; 4; 2; 1; 1 # 2; 1 # 4]).
 Proof. split; vm_compute; reflexivity. Qed.
 
-(* the corner in which the prefix property fails in the model as in the code (DESIGN 5-F10): a deadline
-   that expires inside a trial whose doubled lambda reaches lamb_max ends in the lambda error *)
-Example C08_deadline_inner_lambda_refuted :
+(* the corner that used to fail (DESIGN 5-F10, repaired): a deadline that expires inside a trial whose doubled lambda
+   would have reached lamb_max now ends with TimeLimit at the current point *)
+Example C08_deadline_inner_at_lambda_max :
   let c := mk_cfg None (Some 3) 0 (-(100)) 32 64 Constant
                   {| pp_rho := 1; pp_opt_tol := 0; pp_infeas_tol := 0 |} None false in
-  match ex_solve 10 c 8 with LambdaError _ _ => True | _ => False end.
+  match ex_solve 10 c 8 with Done _ TimeLimit _ => True | _ => False end.
 Proof. vm_compute. exact I. Qed.
 
 Print Assumptions C08_iteration_limit_prefix.
@@ -97,3 +113,4 @@ Print Assumptions C08_deadline_outer.
 Print Assumptions C08_deadline_inner_abandons.
 Print Assumptions C08_abandoned_trial_leaves_no_trace.
 Print Assumptions C08_stop_after_abandoned_trial.
+Print Assumptions C08_abandoned_trial_then_stop.
